@@ -313,7 +313,15 @@ def tparse(text):
     if k == 'S':
         n, i = bparse(toks, 3)
         return idx, ('S', int(toks[2]), n)
+    if k == 'X':
+        sh, cnt, i, bs = int(toks[2]), int(toks[3]), 4, []
+        for _ in range(cnt):
+            b, i = bparse(toks, i); bs.append(b)
+        return idx, ('X', sh, bs)
     return idx, (k,)
+
+
+SHAPES = ['rs', 'ar', 'rr', 'ra', 'fx']
 
 
 class DotGen:
@@ -386,6 +394,19 @@ class DotGen:
             if rng.random() < 0.7: put(('x', 'clock x;', 'C', 'clock'))
             if rng.random() < 0.5: put(('flag', 'bool flag;', 'B', 'bool'))
             if rng.random() < 0.4: put(('fn', 'void fn() { }', 'U', 'other'))
+            # compound members: records, arrays, arrays of records, records with array fields, functions - types whose bounds and sizes mention the parameters
+            for cm in [c for c in ('rs', 'ar', 'rr', 'ra', 'fx') if rng.random() < 0.35]:
+                nb = {'rs': 4, 'ar': 3, 'rr': 2, 'ra': 3, 'fx': 4}[cm]
+                bs = []
+                for q in range(nb):
+                    self.ndecl += 1
+                    size = (cm in ('ar', 'ra') and q == 2)
+                    bs.append(('O', 0, [self.intexp(ps, 1), ('L', (2 if size else 300) + self.ndecl)]) if (q % 2 == 1 or size or rng.random() < 0.3) else ('L', 0))
+                sh = lambda q: bshow(bs[q], self.names)
+                fmt = {'rs': 'struct { int[%s,%s] f; int[%s,%s] g; } rs;', 'ar': 'int[%s,%s] ar[%s];', 'rr': 'struct { int[%s,%s] h; } rr[2];', 'ra': 'struct { int[%s,%s] f[%s]; bool k; } ra;',
+                       'fx': 'int[%s,%s] fx(int[%s,%s] p) { return ' + sh(0) + '; }'}[cm]
+                text = fmt % tuple(sh(q) for q in range(nb))
+                put((cm, text, 'X %d %d %s' % (SHAPES.index(cm) + 1, nb, ' '.join(btok(b) for b in bs)), 'shape-' + cm))
             if rng.random() < 0.5:
                 n = self.intexp([p for p in ps if p[0] == 'int'], 1) if rng.random() < 0.5 else ('L', rng.randrange(2, 6))
                 at = rng.randrange(len(decls) + 1)
@@ -432,6 +453,9 @@ class DotGen:
                 kind = next((f[2] for f in T['frame'] if f[0] == m), None)
                 if kind in ('other', 'param-arr', 'param-rec', 'param-bool'):
                     continue
+                if kind and kind.startswith('shape-'):
+                    qs.append((m, {'rs': 'E<> %s.rs.f >= 0', 'ar': 'E<> %s.ar[0] >= 0', 'rr': 'E<> %s.rr[1].h >= 0', 'ra': 'E<> %s.ra.k', 'fx': 'E<> %s.fx(0) >= 0'}[kind[6:]] % P['name']))
+                    continue
                 text = {'int': 'E<> %s.%s > 0', 'param-int': 'E<> %s.%s > 0', 'clock': 'E<> %s.%s > 1', 'bool': 'E<> %s.%s', 'param-bool': 'E<> %s.%s', 'loc': 'E<> %s.%s', 'scalar': 'E<> %s.%s == %s.%s', None: 'E<> %s.%s > 0'}[kind]
                 qs.append((m, text % ((P['name'], m) * (text.count('%s') // 2))))
             lines.append('%d %d F %d %s M %d %s Q %d %s' % (P['pid'], 1000 + T['idx'], len(T['frame']), ' '.join('%d %s' % (mid(f[0]), f[1]) for f in T['frame']),
@@ -472,6 +496,16 @@ def dot_expected_type(ty, names, pname):
     if k == 'K': return ['const', ['range', ['int'], q(ty[1]), q(ty[2])]]
     if k == 'C': return ['clock']
     if k == 'B': return ['bool']
+    if k == 'X':
+        rg = lambda a, b: ['range', ['int'], q(a), q(b)]
+        idx = lambda b: ['range', ['int'], '"0"', '"%s - 1"' % (('(%s)' if b[0] == 'O' and PREC[b[1]] < 40 else '%s') % bshow(b, names))]
+        b = ty[2]
+        sh = SHAPES[ty[1] - 1]
+        if sh == 'rs': return ['struct', 'f:', rg(b[0], b[1]), 'g:', rg(b[2], b[3])]
+        if sh == 'ar': return ['array', rg(b[0], b[1]), idx(b[2])]
+        if sh == 'rr': return ['array', ['struct', 'h:', rg(b[0], b[1])], ['range', ['int'], '"0"', '"2 - 1"']]
+        if sh == 'ra': return ['struct', 'f:', ['array', rg(b[0], b[1]), idx(b[2])], 'k:', ['bool']]
+        if sh == 'fx': return ['function', rg(b[0], b[1]), 'p:', rg(b[2], b[3])]
     if k == 'S': return ['label', 'S:', ['label', (pname if ty[1] >= 2000 else 'T%d' % (ty[1] - 1000)) + ':::', ['label', '#', ['range', ['scalar'], '"0"', '"%s - 1"' % (('(%s)' if ty[2][0] == 'O' and PREC[ty[2][1]] < 40 else '%s') % bshow(ty[2], names))]]]]
     return None
 
